@@ -15,6 +15,8 @@
 (*          "nonobj" array / string / number / bool / null                 *)
 (*          "flat"  the flat object of the arguments of a struct message   *)
 (*   body   "exact" | "missing" | "wrongtype" | "extra" | "notobj"         *)
+(*          "dropdefault": exact, except that the arguments carrying a     *)
+(*          forwarded `serde(default)` attribute are left out (C17)        *)
 (***************************************************************************)
 EXTENDS Program
 
@@ -60,7 +62,7 @@ OracleOk(q, k, d, o) ==
           /\ o[i] \in BOOLEAN
           /\ d.shape # "obj1" => ~o[i]
           /\ d.key \notin EWireNames(q.parts[i], k) => ~o[i]
-          /\ (d.shape = "obj1" /\ d.key \in EWireNames(q.parts[i], k) /\ d.body = "exact") => o[i]
+          /\ (d.shape = "obj1" /\ d.key \in EWireNames(q.parts[i], k) /\ d.body \in {"exact", "dropdefault"}) => o[i]
 Oracles(q, k, d) == {o \in [1..Len(q.parts) -> BOOLEAN] : OracleOk(q, k, d, o)}
 
 AcceptingParts == {i \in DOMAIN pv : pv[i]}
@@ -132,7 +134,7 @@ WrapperDecode(o) ==
 (* is possible except that the message's own flat encoding is accepted      *)
 StructVerdictOk(v) ==
     /\ v \in {"ok", "err"}
-    /\ (doc.shape = "flat" /\ doc.key = ep /\ doc.body = "exact") => v = "ok"
+    /\ (doc.shape = "flat" /\ doc.key = ep /\ doc.body \in {"exact", "dropdefault"}) => v = "ok"
     /\ doc.shape = "nonobj" => v = "err"
 StructDecode(v) ==
     /\ stage = "delivered" /\ ep \in {"instantiate", "migrate"} /\ ~ByOverride /\ ~AbsentKind
